@@ -130,7 +130,8 @@ fn family(b: bool) -> (&'static str, &'static str, &'static str) {
 
 impl SubWorld {
 	pub async fn new(case: &SubCase, duplex: usize, exact: bool) -> SubWorld {
-		let fix = Fixture::new_with(Cfg { max_subs: case.cap, buffer_capacity: case.buf.max(1), via_set_rpc_middleware: case.per_conn_middleware & 1 != 0, via_set_http_middleware: case.per_conn_middleware & 2 != 0, id_escapes: case.id_escapes, ..Cfg::default() }, case.string_ids);
+		// (for half of the cases the server is configured WebSocket-only, by a setter applied somewhere among the others)
+		let fix = Fixture::new_with(Cfg { max_subs: case.cap, buffer_capacity: case.buf.max(1), via_set_rpc_middleware: case.per_conn_middleware & 1 != 0, via_set_http_middleware: case.per_conn_middleware & 2 != 0, id_escapes: case.id_escapes, mode: if (case.cap as u64 + case.buf as u64) % 2 == 1 { 2 } else { 0 }, ..Cfg::default() }, case.string_ids);
 		let mut conns = vec![];
 		for _ in 0..case.conns.clamp(1, 3) {
 			let ws = if case.lowlevel { fix.ws_lowlevel().await.ok() } else { fix.ws_with(duplex).await.ok() };
